@@ -9,7 +9,7 @@ Separate Extraction
   Byte.to_N Byte.of_N N.of_nat N.to_nat
   Packet.packet_eqb Packet.get_id Packet.type_code Packet.type_of_code Packet.ptype_of
   Client.step Client.init Client.owed_unanswered Client.delivered_twice Client.quiescent
-  Client.pending_futures Client.ended Client.store_before_send_ok Client.truthful_ok
+  Client.pending_futures Client.ended Client.store_before_send_ok Client.truthful_ok Client.fut_truthful
   Future.session_present Future.return_code Future.return_codes
   TraceScan.scan_sbs TraceScan.scan_pubrec TraceScan.unresolved
   TraceScan.hs_step TraceScan.scan_hs TraceScan.hs_twice TraceScan.ack_step TraceScan.scan_ack TraceScan.scan_noack.
